@@ -72,7 +72,7 @@ def predicate(tr, rep):
 
 
 def run(ctx, rep):
-    _loop.run_all(ctx, rep, "C03", predicate, 8, 80)
+    _loop.run_all(ctx, rep, "C03", predicate, 40, 400)
 
 
 def replay(ctx, rp):
